@@ -24,20 +24,46 @@ def corpus():
                 continue
             if pid in (m.get("property"), *m.get("also_checked_by", [])):
                 out.append(("seeded/" + os.path.basename(d), patch, False))
+    # behaviour-preserving refactors written by independent agents: none may be reported by any property
+    for f in sorted(glob.glob(os.path.join(VERIF, "benign", "*.silent.patch"))):
+        out.append(("benign/" + os.path.basename(f), f, True))
     return out
 
+def touched(patch):
+    files = set()
+    for l in open(patch, errors="replace"):
+        if l.startswith("+++ ") or l.startswith("--- "):
+            f = l[4:].split("\t")[0].strip()
+            if f == "/dev/null":
+                continue
+            files.add(f.split("/", 1)[1] if f.startswith(("a/", "b/")) else f)
+    return sorted(files)
+
 def run_one(item):
+    """The variant tree = /repo's current working tree with the patched files overlaid (go/packages
+    Overlay): only the touched files are copied, patched in a scratch directory and handed to the
+    checker with -overlay; everything else is read from /repo itself."""
     name, patch, silent = item
     tmp = tempfile.mkdtemp(prefix="goatverif-mut-")
     try:
-        dst = os.path.join(tmp, "repo")
-        subprocess.run(["rsync", "-a", "--exclude", ".git", repo.rstrip("/") + "/", dst + "/"], check=True)
+        dst = os.path.join(tmp, "overlay")
+        os.makedirs(dst)
+        for rel in touched(patch):
+            src = os.path.join(repo, rel)
+            if os.path.exists(src):
+                os.makedirs(os.path.dirname(os.path.join(dst, rel)), exist_ok=True)
+                shutil.copy(src, os.path.join(dst, rel))
         r = subprocess.run(["patch", "-p1", "-s", "--no-backup-if-mismatch", "-i", patch], cwd=dst, capture_output=True, text=True)
         if r.returncode != 0:
             return {"mutant": name, "result": "skipped", "why": "patch does not apply to the current tree"}
+        for root, _, fs in os.walk(dst):
+            for f in fs:
+                if f.endswith((".orig", ".rej")):
+                    os.unlink(os.path.join(root, f))
         t0 = time.time()
-        env = dict(os.environ, TMPDIR=tmp)
-        r = subprocess.run([BIN, "-repo", dst, "-verif", VERIF, "-prop", pid, "-no-evidence"], capture_output=True, text=True, env=env)
+        os.makedirs(os.path.join(tmp, "t"))
+        env = dict(os.environ, TMPDIR=os.path.join(tmp, "t"))
+        r = subprocess.run([BIN, "-repo", repo, "-overlay", dst, "-verif", VERIF, "-prop", pid, "-no-evidence"], capture_output=True, text=True, env=env)
         hits = []
         for l in r.stdout.splitlines():
             if l.startswith("VIOLATION "):
@@ -58,7 +84,7 @@ def run_one(item):
 items = corpus()
 results = []
 if items:
-    with ThreadPoolExecutor(max_workers=8) as ex:
+    with ThreadPoolExecutor(max_workers=12) as ex:
         results = list(ex.map(run_one, items))
 for r in results:
     print("SELFTEST  %s %-28s %s %s" % (pid, r["result"], r["mutant"], "; ".join(r.get("reported", []))[:200]))
